@@ -107,14 +107,15 @@ def run_C09(tier, rnd, st, res):
     judge_cases(cases, st, res, 'C09', known=lambda v, c: 'D8' if v == 'd8' and c.cmd == 'c11c' else None)
     # D8 (C11) shows in per-type coloured pictures as well; it is C11's finding, not a C09 violation
     res.violations = [v for v in res.violations if v.get('known_id') != 'D8']
-    from raster_model import correspond_c09
+    from raster_model import correspond_c09, correspond_png
     correspond_c09(cases, st, res)
-    res.notes += ['OPEN obligation png_palette: palette / tRNS assembly of write_png (sorting, transparent placeholder, alpha first) is not modelled; '
-                  'it is judged on every PNG (all image types) instead',
-                  'OPEN obligation PngStreamRows (Props/C09.lean, stated): splitting of the model stream into scanlines not proved; '
-                  'up_filter_zero_row + scanline_unpack + matrix_iter_pixel are',
-                  'Tie B (model = code) covers matrix_iter through the raster of pbm P4/P1, xbm, the inflated IDAT of greyscale PNGs, and the '
-                  'complete txt / ansi / compact documents; colour handling of png/pam/ppm/xpm is judged only']
+    correspond_png(cases, st, res, rnd, syms, tier)
+    res.notes += ['png_stream_rows / png_stream_reconstructs / png_palette_sound / png_standin_and_trns / png_model_picture (Props/C09Png.lean): '
+                  'the former OPEN obligations PngStreamRows and png_palette are proved for the model Model.writePng / Model.savePng',
+                  'Tie B (model = code) covers matrix_iter through the raster of pbm P4/P1, xbm, the complete txt / ansi / compact documents, and '
+                  'EVERY png of the generator + an extra stream (palette corners, dropped keys, alpha ties, float alpha): IHDR fields, PLTE, tRNS and '
+                  'the inflated IDAT byte for byte; ppm raster with per-type colours; not modelled: pHYs (dpi), zlib, CRCs (judged), pam / xpm colour paths (judged)',
+                  'runtime service supplied to the model: iteration order of set() where two colours share R, G, B and differ in alpha']
     account(res, cases, 'all 44 symbol sizes x {png (grey, grey+tRNS, 1/2/4-bit palettes, alpha, transparent), pbm P4/P1, pam (4 tuple types), '
             'ppm, xbm, xpm, txt, ansi, compact} x scale 1..12 (+ fractional) x border None/0..6 x colours x dpi/compresslevel/plain/name; explicit '
             'sweep of all widths mod 8 per packing (png depth 1/2/4, pbm, xbm); refusals (scale < 1, border < 0 or fractional, unreadable '
@@ -125,11 +126,13 @@ def run_C11(tier, rnd, st, res):
     syms = Sym(rnd)
     cases = gen_c11(rnd, syms, tier)
     judge_cases(cases, st, res, 'C11', known=known_c11)
-    from raster_model import correspond_c11
+    from raster_model import correspond_c11, correspond_png
     correspond_c11(cases, st, res)
-    res.notes += ['_make_colormap / colorful are not modelled (colormap_fallback not proved): the per-type colours are judged on every '
-                  'colourful png / ppm / svg output against Spec (type of the module -> configured colour, else dark / light)',
-                  'Tie B (model = code): matrix_iter and matrix_iter(verbose=True) of all 44 versions, cell by cell']
+    correspond_png(cases, st, res, rnd, syms, tier)
+    res.notes += ['colormap_fallback / colormap_keys / dropped_keys_unused / version_key_exact / darkmodule_key_exact / alignment_key '
+                  '(Props/C11Colormap.lean) and png_model_picture_types (Props/C09Png.lean) are proved for Model.makeColormap / Model.writePng',
+                  'Tie B (model = code): matrix_iter and matrix_iter(verbose=True) of all 44 versions, cell by cell; every colourful png (IHDR, PLTE, '
+                  'tRNS, inflated IDAT byte for byte) and ppm raster of the generator + the extra stream; SVG run emission is judged only']
     res.exhaustive = True
     account(res, cases, 'matrix_iter(verbose=True) and matrix_iter() of all 44 versions (every module of every size; exhaustive over sizes) with '
             'default and random scale/border; refusals; png / ppm with random subsets of the 15 per-type colour options (incl. two-tone maps that are '
